@@ -37,6 +37,26 @@ pub struct Spec {
     /// run against passage::start(config) in a child process (configuration -> listener wiring included)
     #[serde(default)]
     via_start: bool,
+    /// limiter window in seconds (default: one hour, so that no window rolls over inside a history)
+    #[serde(default = "hour")]
+    window_s: u64,
+}
+
+fn hour() -> u64 {
+    3600
+}
+
+/// `v1@2500:addr` = the header is sent 2500 ms (real time) after the connection was accepted
+fn late_ms(header: &str) -> Option<u64> {
+    let (_, r) = header.split_once('@')?;
+    r.split_once(':')?.0.parse().ok()
+}
+
+fn without_delay(kind: &Kind) -> Kind {
+    match (kind.header.split_once('@'), late_ms(&kind.header)) {
+        (Some((ver, rest)), Some(_)) => Kind { peer: kind.peer.clone(), header: format!("{ver}:{}", rest.split_once(':').unwrap().1) },
+        _ => kind.clone(),
+    }
 }
 
 fn k(peer: &str, header: &str) -> Kind {
@@ -74,6 +94,7 @@ fn split_kinds() -> Vec<Kind> {
 }
 
 fn header_bytes(kind: &Kind, server: SocketAddr) -> Vec<u8> {
+    let kind = &without_delay(kind);
     let dst = |src: SocketAddr| -> SocketAddr { if src.is_ipv4() { server } else { "[2001:db8::ffff]:25565".parse().unwrap() } };
     match kind.header.as_str() {
         "none" => vec![],
@@ -109,6 +130,7 @@ enum Expect {
 }
 
 fn expect(proxy: &str, kind: &Kind, peer_addr: SocketAddr) -> Expect {
+    let kind = &without_delay(kind);
     if proxy == "off" {
         return Expect::Limited(peer_addr);
     }
@@ -142,6 +164,9 @@ async fn run_connection(server: SocketAddr, kind: &Kind, login: bool) -> ConnObs
     };
     let local = c.local;
     let hdr = header_bytes(kind, server);
+    if let Some(ms) = late_ms(&kind.header) {
+        tokio::time::sleep(Duration::from_millis(ms)).await;
+    }
     match kind.header.split_once('/').and_then(|(_, r)| r.split_once(':')).and_then(|(n, _)| n.parse::<usize>().ok()) {
         Some(n) => {
             // the header arrives in two segments
@@ -195,13 +220,13 @@ fn run_history(spec: &Spec) -> Vec<(String, String)> {
                 "v1only" => Some((true, false)),
                 _ => Some((false, true)),
             },
-            limiter: (spec.limit > 0).then_some((3600, spec.limit)),
+            limiter: (spec.limit > 0).then_some((spec.window_s, spec.limit)),
             timeout: Duration::from_secs(20),
             auth_secret: Some(b"c15-secret".to_vec()),
         };
         let running = start_listener(&cfg, adapters).await;
         // the reference: a shadow instance of the real limiter fed with the reference model's effective IPs
-        let mut shadow: Option<RateLimiter<IpAddr>> = (spec.limit > 0).then(|| RateLimiter::new(Duration::from_secs(3600), spec.limit));
+        let mut shadow: Option<RateLimiter<IpAddr>> = (spec.limit > 0).then(|| RateLimiter::new(Duration::from_secs(spec.window_s), spec.limit));
         for (i, kind) in spec.history.iter().enumerate() {
             let login = spec.login_last && i + 1 == spec.history.len();
             let status_before = log.lock().unwrap().status_clients.len();
@@ -376,16 +401,16 @@ pub fn run(cli: Cli) -> ! {
                 if limit == 0 && h.len() > 2 {
                     continue; // without a limiter histories add nothing beyond pairs
                 }
-                specs.push(Spec { proxy: proxy.into(), limit, history: h, login_last: false, via_start: false });
+                specs.push(Spec { proxy: proxy.into(), limit, history: h, login_last: false, via_start: false, window_s: 3600 });
             }
         }
         // one history per configuration and limiter setting ends in a full login
         for limit in [0usize, 2] {
             let ks = kinds(proxy);
             for first in [ks[0].clone(), ks[ks.len() - 1].clone()] {
-                specs.push(Spec { proxy: proxy.into(), limit, history: vec![first, ks[0].clone()], login_last: true, via_start: false });
+                specs.push(Spec { proxy: proxy.into(), limit, history: vec![first, ks[0].clone()], login_last: true, via_start: false, window_s: 3600 });
                 if proxy != "off" {
-                    specs.push(Spec { proxy: proxy.into(), limit, history: vec![ks[4].clone()], login_last: true, via_start: false });
+                    specs.push(Spec { proxy: proxy.into(), limit, history: vec![ks[4].clone()], login_last: true, via_start: false, window_s: 3600 });
                 }
             }
         }
@@ -394,18 +419,40 @@ pub fn run(cli: Cli) -> ! {
     for limit in [0usize, 1] {
         let ks = kinds("v1v2");
         for a in &ks {
-            specs.push(Spec { proxy: "neither".into(), limit, history: vec![a.clone()], login_last: false, via_start: false });
+            specs.push(Spec { proxy: "neither".into(), limit, history: vec![a.clone()], login_last: false, via_start: false, window_s: 3600 });
         }
-        specs.push(Spec { proxy: "neither".into(), limit, history: ks.clone(), login_last: false, via_start: false });
+        specs.push(Spec { proxy: "neither".into(), limit, history: ks.clone(), login_last: false, via_start: false, window_s: 3600 });
     }
     // headers that arrive in two segments with a pause (every split kind alone, after and before a
     // connection announcing the same source, under limit 1 and 2)
     for limit in [1usize, 2, 0] {
         for sk in split_kinds() {
             let whole = k("127.0.0.2", &sk.header.replacen(&sk.header[2..sk.header.find(':').unwrap()], "", 1));
-            specs.push(Spec { proxy: "v1v2".into(), limit, history: vec![sk.clone()], login_last: false, via_start: false });
-            specs.push(Spec { proxy: "v1v2".into(), limit, history: vec![whole.clone(), sk.clone()], login_last: false, via_start: false });
-            specs.push(Spec { proxy: "v1v2".into(), limit, history: vec![sk.clone(), whole.clone(), sk.clone()], login_last: false, via_start: false });
+            specs.push(Spec { proxy: "v1v2".into(), limit, history: vec![sk.clone()], login_last: false, via_start: false, window_s: 3600 });
+            specs.push(Spec { proxy: "v1v2".into(), limit, history: vec![whole.clone(), sk.clone()], login_last: false, via_start: false, window_s: 3600 });
+            specs.push(Spec { proxy: "v1v2".into(), limit, history: vec![sk.clone(), whole.clone(), sk.clone()], login_last: false, via_start: false, window_s: 3600 });
+        }
+    }
+    // The budget is charged when the connection is admitted, not when it was accepted: with a one second
+    // window, a client that sends its header 2.5 s after connecting and one that announces the same source
+    // right afterwards (refused), and the other way round (the early visit is more than two windows old when
+    // the late header arrives: admitted).
+    {
+        let late = |peer: &str, ver: &str, a: &str| k(peer, &format!("{ver}@2500:{a}"));
+        for limit in [1usize, 2] {
+            for ver in ["v1", "v2"] {
+                let prompt = k("127.0.0.2", &format!("{ver}:{X}"));
+                let mut h1 = vec![late("127.0.0.1", ver, X)];
+                let mut h2 = vec![];
+                for _ in 0..limit {
+                    h1.push(prompt.clone());
+                    h2.push(prompt.clone());
+                }
+                h2.push(late("127.0.0.1", ver, X));
+                h2.push(prompt.clone());
+                specs.push(Spec { proxy: "v1v2".into(), limit, history: h1, login_last: false, via_start: false, window_s: 1 });
+                specs.push(Spec { proxy: "v1v2".into(), limit, history: h2, login_last: false, via_start: false, window_s: 1 });
+            }
         }
     }
     // configuration -> listener wiring: the same kinds against passage::start for the one-version configurations
@@ -413,8 +460,8 @@ pub fn run(cli: Cli) -> ! {
         let ks = kinds(if proxy == "off" { "off" } else { "v1v2" });
         for limit in [0usize, 1] {
             // one history that walks through every kind once, and its reverse
-            specs.push(Spec { proxy: proxy.into(), limit, history: ks.clone(), login_last: false, via_start: true });
-            specs.push(Spec { proxy: proxy.into(), limit, history: ks.iter().rev().cloned().collect(), login_last: false, via_start: true });
+            specs.push(Spec { proxy: proxy.into(), limit, history: ks.clone(), login_last: false, via_start: true, window_s: 3600 });
+            specs.push(Spec { proxy: proxy.into(), limit, history: ks.iter().rev().cloned().collect(), login_last: false, via_start: true, window_s: 3600 });
         }
     }
     let rot = common::seed() as usize % specs.len();
@@ -444,9 +491,9 @@ pub fn run(cli: Cli) -> ! {
     rep.set("histories", json!(specs.len()));
     rep.set("connections", json!(conns.load(Ordering::Relaxed)));
     rep.set("exhaustive", json!(true));
-    rep.set("rule", json!("all arrival histories up to depth 3/4 over 13 connection kinds (two load-balancer peers; a source equal to the load balancer's own address; PROXY v1/v2 headers announcing two IPv4 and one IPv6 source; absent, malformed, truncated, disabled-version and address-less headers) for PROXY {v1+v2, v2 only, off} x limiter {limit 1, limit 2, off} with a one hour window; each connection is a real TCP connection that ends at a barrier (status reply or end of stream); plus histories ending in a full login, histories whose header arrives in two segments with a pause, and the configuration in which PROXY protocol is on but no version is allowed. distinct_nontrivial = distinct (configuration, sequence of header classes)."));
+    rep.set("rule", json!("all arrival histories up to depth 3/4 over 13 connection kinds (two load-balancer peers; a source equal to the load balancer's own address; PROXY v1/v2 headers announcing two IPv4 and one IPv6 source; absent, malformed, truncated, disabled-version and address-less headers) for PROXY {v1+v2, v2 only, off} x limiter {limit 1, limit 2, off} with a one hour window; each connection is a real TCP connection that ends at a barrier (status reply or end of stream); plus histories ending in a full login, histories whose header arrives in two segments with a pause, the configuration in which PROXY protocol is on but no version is allowed, and 8 histories with a one second window in which a header arrives 2.5 s after its connection was accepted (the budget is charged at admission time). distinct_nontrivial = distinct (configuration, sequence of header classes)."));
     rep.sample(json!({"spec": specs[0]}));
-    rep.sample(json!({"spec": Spec { proxy: "v1v2".into(), limit: 1, history: vec![k("127.0.0.1", &format!("v1:{X}")), k("127.0.0.2", &format!("v1:{X}")), k("127.0.0.1", "none")], login_last: false, via_start: false }, "expect": "served, refused (same announced source through another load balancer), closed uncounted"}));
+    rep.sample(json!({"spec": Spec { proxy: "v1v2".into(), limit: 1, history: vec![k("127.0.0.1", &format!("v1:{X}")), k("127.0.0.2", &format!("v1:{X}")), k("127.0.0.1", "none")], login_last: false, via_start: false, window_s: 3600 }, "expect": "served, refused (same announced source through another load balancer), closed uncounted"}));
     rep.assume("the verdict 'served exactly when the limiter admits' uses a shadow instance of the real RateLimiter fed with the reference model's effective addresses (the limiter's own bounds are C13's subject)");
     rep.assume("headers that are valid but announce no address (v1 UNKNOWN, v2 LOCAL) may be closed or treated as the peer; OS scheduling of loopback sockets is not controlled, every verdict is taken at a barrier with a 2 s deadline");
     rep.finish()
